@@ -8,6 +8,7 @@ package c16
 
 import (
 	"fmt"
+	"os"
 	"strings"
 	"testing"
 
@@ -1430,6 +1431,14 @@ func describeStuck(kind string) string {
 var hangSeen = map[string]bool{}
 var ctxRef *h.Ctx
 
+// only: development aid - C16_ONLY=join,capacity generates cases for just those sub-checks (unset: all of them).
+func only(name string, n int) int {
+	if v := os.Getenv("C16_ONLY"); v != "" && !oneOf(name, strings.Split(v, ",")...) {
+		return 0
+	}
+	return n
+}
+
 func TestC16(t *testing.T) {
 	c := h.New(t, "C16")
 	defer c.Finish()
@@ -1441,13 +1450,17 @@ func TestC16(t *testing.T) {
 	c.Extra("repetitions_per_gomaxprocs", float64(reps))
 	c.Rule(fmt.Sprintf("pipelines: 1 source goroutine (or 2..4 sources into one channel + closer goroutine with a join channel), 0..3 transformer goroutines, n in 0..200 items, buffers 0..3, element types int64/float64/string/interface, every goroutine started by go (named/var/literal/item/member; <=4 params direct path, >=5 or variadic reflect path) with value arguments the caller changes right after the go statement; yield(j) at generated points; each program run under GOMAXPROCS 1,2,16 x %d repetitions with -race; non-trivial = >=2 goroutines and (>=1 unbuffered channel or n > sum of buffers); distinct by (source text, GOMAXPROCS list)", reps))
 	c.Rule("closed: one goroutine, one channel, generated send/receive/close sequence that never blocks, modelled as a FIFO with a closed flag; non-trivial = at least one operation after close while an item is still buffered or an error-raising operation")
-	h.Run(c, "pipeline", c.N(400, 700), genCase, oracleFor(reps))
-	h.Run(c, "closed", c.N(1500, 20000), genClosed, oracleClosed)
+	h.Run(c, "pipeline", only("pipeline", c.N(400, 700)), genCase, oracleFor(reps))
+	h.Run(c, "closed", only("closed", c.N(1500, 20000)), genClosed, oracleClosed)
 	c.Rule(fmt.Sprintf("fanout: 1..3 sources (200..1000 items in all) into one channel with buffer 1..3, 2..4 worker goroutines consuming it concurrently (for-in / two-value loop / receive-expression loop until nil / capped two-value / capped receive-expression; at least one worker ends only on close), forwarding to a results channel or host out(); GOMAXPROCS 1,2,16 x %d; non-trivial = items > buffer", reps))
-	h.Run(c, "fanout", c.N(36, 40), genFan, oracleFan(reps))
+	h.Run(c, "fanout", only("fanout", c.N(36, 40)), genFan, oracleFan(reps))
 	c.Rule("twins: 2..4 independent pipelines (1..3 forwarding stages, 0..150 items, buffers 0..2) running at once from ONE source text (one stage function, one runner function); items are int64 or *int64 with every third a nil pointer; a stage hands an item on by a literal call, a parenthesised call, a member call, an element call, a named call or a plain send; every pipeline must deliver exactly its own items in order; GOMAXPROCS 2,4,16 x 1..3; non-trivial = >= 2 items per pipeline")
-	h.Run(c, "twins", c.N(150, 1500), genTwins, oracleTwins)
+	h.Run(c, "twins", only("twins", c.N(150, 1500)), genTwins, oracleTwins)
 	c.Rule("drained: a channel of every kind of element type (pointers, slices, maps, interface, channel, scalars), closed and drained: a receive expression (as an argument, assigned, as a list / map element, returned by a function) yields the untyped nil; close twice (also in a loop) is an error; close of a pointer to a channel or of a nil channel is an error, never a crash. goargs: 4-40 go calls of a worker with 1-5 parameters whose first argument has a side effect (a receive from a jobs channel, a host counter): the workers receive every job number exactly once and the counter is called once per go call; 257-320 goroutines parked on a gate all run concurrently with their caller; all cases non-trivial")
-	h.Run(c, "drained", c.N(1200, 12000), genDrained, oracleDrained)
-	h.Run(c, "goargs", c.N(120, 1200), genGoArgs, oracleGoArgs)
+	h.Run(c, "drained", only("drained", c.N(1200, 12000)), genDrained, oracleDrained)
+	h.Run(c, "goargs", only("goargs", c.N(120, 1200)), genGoArgs, oracleGoArgs)
+	c.Rule("join: one consumer (top level / called function / go-started function) over 2..4 channels of 0..8 items each (producer goroutine with buffer 0..3, or buffer filled beforehand, closed or still open), its statements generated: loops over a channel (for-in / two-value / receive-expression, run to the close or left by break after 1..3 items) whose bodies hold receives from any channel (receive expression assigned / as a list element / as an argument / as the operand of a send, two-value and one-value receive statements), nested loops, channels made, filled and closed in the body, function literals called in the body; every receive and loop end is recorded and compared with an interpreter of the consumer over FIFO queues; at the end every channel is drained; GOMAXPROCS two of 1,2,16; non-trivial = some loop asks for its next item after a receive happened in its body")
+	h.Run(c, "join", only("join", c.N(250, 2500)), genJoin, oracleJoin)
+	c.Rule("capacity: make(chan T, n) takes n items while nobody receives: n from 0 to 2^17+1, in the thorough tier to 2^20+1 (edge values around powers of two, sizes that do not fit into 16 bits), filled by the main goroutine, by 2..4 workers joined before the first receive, or (large n) by the host with Go's non-blocking send for all but the last 1..200 items; then close and drain; non-trivial = filled to the brim with at least 2 items")
+	h.Run(c, "capacity", only("capacity", c.N(20, 150)), genCapFor(c.Thorough()), oracleCap)
 }
